@@ -127,6 +127,30 @@ type ShAmbUse struct {
 	B   *ShAmbB
 }
 
+// Recursion through EMBEDDING: a struct that embeds a pointer to itself, two structs that embed pointers to each
+// other, a recursive struct reached only through an embedded member.
+type SelfEmb struct {
+	A int
+	*SelfEmb
+}
+type MutA struct {
+	*MutB
+	Y int
+}
+type MutB struct {
+	*MutA
+	X int
+}
+type RecKid struct {
+	Name string
+	Val  int
+	Kids []*RecKid
+}
+type EmbRec struct {
+	RecKid
+	Name string
+}
+
 // Rec is a recursive type.
 type Rec struct {
 	V    int
@@ -216,6 +240,7 @@ func EncLeaves() []reflect.Type {
 		reflect.TypeOf(Plain{}), reflect.TypeOf(RecP{}), reflect.TypeOf(MW{}),
 		reflect.TypeOf(EmbPtr{}), reflect.TypeOf(EmbCase{}), reflect.TypeOf(EmbCaseV{}),
 		reflect.TypeOf(ShBundle{}), reflect.TypeOf(ShAmbUse{}),
+		reflect.TypeOf(SelfEmb{}), reflect.TypeOf(MutA{}),
 	}
 }
 
